@@ -149,6 +149,41 @@ class TraceRun:
         return self
 
 
+GEO = ("GEOADD", "GEODIST", "GEOHASH", "GEOPOS", "GEORADIUS", "GEORADIUSBYMEMBER")
+
+
+def stall_signature(step):
+    """root-cause shape of a command that never replied (the sequential models have no lock state, so a
+    hang is classified from the command itself):
+      STALL/same-key-twice   some argument occurs twice (the command waits for a lock it holds itself)
+      STALL/geo-wrong-type   a GEO* command (they hang on a key of another type)
+      STALL/other            anything else - never a listed finding"""
+    t = step.split()
+    if t[0] != "OP":
+        return "STALL/other"
+    name = t[2].upper()
+    n = int(t[3])
+    args = t[4:4 + n] if n else []
+    if name in GEO:
+        return "STALL/geo-wrong-type"
+    if len(set(args)) < len(args):
+        return "STALL/same-key-twice"
+    return "STALL/other"
+
+
+def stalls(run):
+    """-> list of dict(case, step, signature, text) for steps whose reply is TIMEOUT (the instance is dead afterwards)"""
+    out = []
+    for cid in run.order:
+        c = run.cases[cid]
+        for i, res in enumerate(c["results"]):
+            if res.split()[:1] == ["TIMEOUT"]:
+                out.append({"case": cid, "step": i + 1, "signature": stall_signature(c["steps"][i]),
+                            "text": "%s never replied (5 s); every command before it did" % step_text(c["steps"][i])[:120]})
+                break
+    return out
+
+
 def classify(run, known_keys, relevant=None):
     """-> (violations, confirmed_known, nofail_diffs)
     violations: list of dict(case, step, signature, text, reason)
@@ -174,6 +209,14 @@ def classify(run, known_keys, relevant=None):
                 attributable.add(case)
                 viol.append({"case": case, "step": step, "signature": sig, "text": text,
                              "reason": "after the implementation left the model: unlisted deviation from the specification"})
+    stalled = {}
+    for v in stalls(run):
+        stalled[v["case"]] = v
+        if v["signature"] in known_keys:
+            confirmed.setdefault(v["signature"], (v["case"], v["step"], v["text"]))
+        else:
+            viol.append(dict(v, reason="a command never replied"))
+        attributable.add(v["case"])
     nofail = []
     for case, (step, kind, detail) in run.mdiffs.items():
         if case not in attributable:
